@@ -277,3 +277,102 @@ Proof.
   - symmetry. exact Hget.
 Qed.
 End CursorEq.
+
+(* ---- cursor-level fix-ups: after the mutation of ONE node (described by what find_node returns before and after),
+        the fixed-up cursor reads the same record it read before ---- *)
+Section CursorFix.
+Variables K V : Type.
+Variable IDXNUM PIVOT : nat.
+Notation chain := (chain K V).
+Notation recs := (recs K V).
+
+Definition positioned (cur : cursor) (id p : nat) : Prop :=
+  exists cc, c_cn cur = Some cc /\ cc_node cc = CnNode id /\ c_pos cur = p.
+
+Lemma on_node_positioned cur id p : positioned cur id p -> on_node cur id = true.
+Proof. intros [cc [H1 [H2 _]]]. unfold on_node. rewrite H1, H2. apply Nat.eqb_refl. Qed.
+
+Lemma read_positioned (c : chain) cur id p pv r nx pnum :
+  c_cn cur = Some {| cc_node := CnNode id; cc_pnum := pnum; cc_p0 := pv; cc_n0 := nx |} -> c_pos cur = p ->
+  p < pnum -> find_node K V None c id = Some (pv, r, nx) ->
+  cursor_read K V c cur = nth_error r p.
+Proof.
+  intros Hcn Hp Hlt Hf. unfold cursor_read, cursor_at. rewrite Hcn. cbn [cc_node cc_pnum]. rewrite Hp.
+  assert (E : Nat.ltb p pnum = true) by (apply Nat.ltb_lt; exact Hlt). rewrite E. rewrite Hf. reflexivity.
+Qed.
+
+Lemma read_fields (c : chain) id p pv r nx pnum skip pend :
+  p < pnum -> find_node K V None c id = Some (pv, r, nx) ->
+  cursor_read K V c {| c_cn := Some {| cc_node := CnNode id; cc_pnum := pnum; cc_p0 := pv; cc_n0 := nx |};
+                       c_pos := p; c_skip := skip; c_pend := pend |} = nth_error r p.
+Proof. intros Hlt Hf. eapply read_positioned; [reflexivity|reflexivity|exact Hlt|exact Hf]. Qed.
+
+(* _sblk_addkv / _sblk_addkv2 on the cursor's node *)
+Theorem fix_insert_keeps (c' : chain) cur id p idx e r pv nx :
+  positioned cur id p -> p < length r ->
+  find_node K V None c' id = Some (pv, insert_at K V r idx e, nx) ->
+  cursor_read K V c' (fix_insert K V IDXNUM c' id idx cur) = nth_error r p.
+Proof.
+  intros Hpos Hp Hf. pose proof (on_node_positioned _ _ _ Hpos) as Hon.
+  destruct Hpos as [cc [Hcn [Hnode Hcp]]].
+  unfold fix_insert. rewrite Hon. unfold with_cn. rewrite Hcn. unfold set_cn. cbn [c_pos c_cn c_skip c_pend].
+  unfold refresh. rewrite Hnode. unfold load_node. rewrite Hf.
+  assert (Hlen : length (insert_at K V r idx e) = S (length r)).
+  { clear. revert idx; induction r as [|x r IH]; intros [|j]; simpl; try reflexivity. now rewrite IH. }
+  rewrite Hcp. destruct (Nat.leb idx p) eqn:El.
+  - assert (Hlt : p + 1 < length (insert_at K V r idx e)) by (rewrite Hlen; lia).
+    rewrite (read_fields c' id (p + 1) pv _ nx _ _ _ Hlt Hf).
+    replace (p + 1) with (S p) by lia.
+    destruct (insert_keeps_record K V 1 (le_n 1) r idx p e) as [H|H]; [rewrite El in H; exact H|lia].
+  - assert (Hlt : p < length (insert_at K V r idx e)) by (rewrite Hlen; lia).
+    rewrite (read_fields c' id p pv _ nx _ _ _ Hlt Hf).
+    destruct (insert_keeps_record K V 1 (le_n 1) r idx p e) as [H|H]; [rewrite El in H; exact H|lia].
+Qed.
+
+(* _sblk_rmkv on the cursor's node, another slot *)
+Theorem fix_remove_keeps (c' : chain) cur id p idx r pv nx :
+  positioned cur id p -> p < length r -> idx < length r -> p <> idx ->
+  find_node K V None c' id = Some (pv, remove_at K V r idx, nx) ->
+  cursor_read K V c' (fix_remove K V IDXNUM c' id idx cur) = nth_error r p.
+Proof.
+  intros Hpos Hp Hi Hne Hf. pose proof (on_node_positioned _ _ _ Hpos) as Hon.
+  destruct Hpos as [cc [Hcn [Hnode Hcp]]].
+  assert (Hlen : length (remove_at K V r idx) = length r - 1).
+  { clear - Hi. revert idx Hi; induction r as [|x r IH]; intros [|j] Hi; simpl in *; try lia. rewrite IH by lia. lia. }
+  unfold fix_remove, fix_remove_in. rewrite Hf. rewrite Hon. unfold with_cn. rewrite Hcn. unfold set_cn.
+  cbn [c_pos c_cn c_skip c_pend]. unfold refresh. rewrite Hnode. unfold load_node. rewrite Hf. rewrite Hcp.
+  assert (E1 : Nat.eqb p idx = false) by (apply Nat.eqb_neq; exact Hne). rewrite E1.
+  destruct (Nat.ltb idx p) eqn:El.
+  - pose proof (remove_keeps_record K V 1 (le_n 1) r idx p Hne) as H. rewrite El in H.
+    apply Nat.ltb_lt in El.
+    assert (Hlt : p - 1 < length (remove_at K V r idx)) by (rewrite Hlen; lia).
+    rewrite (read_fields c' id (p - 1) pv _ nx _ _ _ Hlt Hf). exact H.
+  - pose proof (remove_keeps_record K V 1 (le_n 1) r idx p Hne) as H. rewrite El in H.
+    apply Nat.ltb_ge in El.
+    assert (Hlt : p < length (remove_at K V r idx)) by (rewrite Hlen; lia).
+    rewrite (read_fields c' id p pv _ nx _ _ _ Hlt Hf). exact H.
+Qed.
+
+(* _sblk_rmkv on the record under the cursor (not the last slot): the cursor reads the successor and skip_next = 1,
+   so the next NEXT does not move - the successor is visited exactly once *)
+Theorem fix_remove_current (c' : chain) cur id p r pv nx :
+  positioned cur id p -> S p < length r ->
+  find_node K V None c' id = Some (pv, remove_at K V r p, nx) ->
+  let cur' := fix_remove K V IDXNUM c' id p cur in
+  cursor_read K V c' cur' = nth_error r (S p) /\ c_skip cur' = 1%Z.
+Proof.
+  intros Hpos Hp Hf. pose proof (on_node_positioned _ _ _ Hpos) as Hon.
+  destruct Hpos as [cc [Hcn [Hnode Hcp]]].
+  assert (Hlen : length (remove_at K V r p) = length r - 1).
+  { assert (Hi : p < length r) by lia. clear - Hi. revert p Hi; induction r as [|x r IH]; intros [|j] Hi; simpl in *; try lia. rewrite IH by lia. lia. }
+  cbv zeta. unfold fix_remove, fix_remove_in. rewrite Hf. rewrite Hon. unfold with_cn. rewrite Hcn. unfold set_cn.
+  cbn [c_pos c_cn c_skip c_pend]. unfold refresh. rewrite Hnode. unfold load_node. rewrite Hf. rewrite Hcp.
+  rewrite Nat.eqb_refl.
+  assert (E : (negb (Nat.eqb p 0) && Nat.eqb p (length (remove_at K V r p)))%bool = false).
+  { rewrite Hlen. destruct (Nat.eqb p 0); [reflexivity|]. simpl. apply Nat.eqb_neq. lia. }
+  rewrite E. split; [|reflexivity].
+  assert (Hlt : p < length (remove_at K V r p)) by (rewrite Hlen; lia).
+  rewrite (read_fields c' id p pv _ nx _ _ _ Hlt Hf).
+  apply remove_current_successor.
+Qed.
+End CursorFix.
